@@ -76,7 +76,7 @@ def run(db, res, tier):
   res.floor("trace events with effects", total_ev, 2500)
   res.floor("scatter-then-read instances inside host loops", nloop, 10)
   res.floor("live-in fields examined", sum(len(v) for v in lives.values()), 25)
-  res.rule_text = "R-GLOBAL.9: no function hangs an attribute on a Model/Data parameter that the dataclass does not declare (no setattr / getattr-with-default / __dict__): all per-object state is declared state; R-LIVE.9: a kernel that rebuilds a per-world field but returns early for worlds whose counter is zero runs only on host paths where the tree's complement writer of that field (stores it under counter == 0, switched by a factory flag) was launched earlier with the flag implied by the path; R-LIVE: LiveIn(step) and LiveIn(forward) - array fields read (or accumulated into) by some launch/copy with no earlier possible definition in the same call - contain only Model fields, State.INTEGRATION fields, tabled sticky diagnostics / make_data constants and (with sleeping enabled) the persistent sleep state; scratch temporaries are never read before definition; R-LIVE.8: a kernel never reads a cell of a constraint row / contact slot it has just allocated from the atomic counter before writing it; R-LIVE.7: every field that today's tree clears on the host before launches of the same function accumulate into it or write it partially (tabled reference, 75 pairs: host fills and initialising launches) still has a dominating full definition; R-LIVE.6: for each single disable/enable flag, each flag pair tested together and each member of the integrator / solver / cone option enums, no read of a non-state Data field stays reachable (three-valued evaluation of host path conditions) while every earlier definition of the field in the same call becomes unreachable; R-LIVE.5b: every row builder writes all eight scalar fields of a freshly allocated constraint row unconditionally; R-LIVE.5: every kernel that allocates a slot of the flat contact buffer (re)defines every Contact field of the slot over its full trailing extent (slots are re-used across steps); R-LIVE.4: an array filled by sparse-column scatter (index loaded from a *colind field) and read densely later in the same iteration of a host loop (solver iterations, RK4 stages) is cleared inside the iteration before the scatter"
+  res.rule_text = "R-GLOBAL.9: no function hangs an attribute on a Model/Data parameter that the dataclass does not declare (no setattr / getattr-with-default / __dict__): all per-object state is declared state; R-LIVE.9: a kernel that rebuilds a per-world field but returns early for worlds whose counter is zero runs only on host paths where the tree's complement writer of that field (stores it under counter == 0, switched by a factory flag) was launched earlier with the flag implied by the path; R-LIVE: LiveIn(step) and LiveIn(forward) - array fields read (or accumulated into) by some launch/copy with no earlier possible definition in the same call - contain only Model fields, State.INTEGRATION fields, tabled sticky diagnostics / make_data constants and (with sleeping enabled) the persistent sleep state; scratch temporaries are never read before definition; R-LIVE.8: a kernel never reads a cell of a constraint row / contact slot it has just allocated from the atomic counter before writing it; R-LIVE.7: every field that today's tree clears on the host before launches of the same function accumulate into it or write it partially (tabled reference, 107 pairs: host fills, initialising allocations and initialising launches) still has a dominating full definition; R-LIVE.6: for each single disable/enable flag, each flag pair tested together and each member of the integrator / solver / cone option enums, no read of a non-state Data field stays reachable (three-valued evaluation of host path conditions) while every earlier definition of the field in the same call becomes unreachable; R-LIVE.5b: every row builder writes all eight scalar fields of a freshly allocated constraint row unconditionally; R-LIVE.5: every kernel that allocates a slot of the flat contact buffer (re)defines every Contact field of the slot over its full trailing extent (slots are re-used across steps); R-LIVE.4: an array filled by sparse-column scatter (index loaded from a *colind field) and read densely later in the same iteration of a host loop (solver iterations, RK4 stages) is cleared inside the iteration before the scatter"
   res.explanation = (
     "Field-level def-use over the ordered host effect trace of step()/forward() (every launch resolved to its kernel's own read/write sets, launch-time literal arguments pruning dead branches). "
     "A may-define counts as a kill, so the analysis under-reports; every reported field is a definite read of a value that the call did not produce. "
